@@ -422,8 +422,12 @@ impl Module {
         &'a self,
         aux: &mut std::collections::HashSet<&'a str>,
     ) -> Result<(), CompilationErrorPayload> {
-        // test that submodule names are unique
+        // test that submodule names are valid and unique
         for (name, _) in self.submodules.iter() {
+            // a module name is a path segment: empty, dotted or `super` would change what paths mean
+            if !is_name_valid(name.as_str()) {
+                return Err(CompilationErrorPayload::BadModuleName(name.to_string()));
+            }
             if aux.contains(name.as_str()) {
                 return Err(CompilationErrorPayload::DuplicateModule(name.to_string()));
             }
